@@ -285,8 +285,11 @@ Record cvars := { cv_pk : option (option bool * bool); cv_sap : option label; cv
    select one (_core.py:801 strip_link_target_keys -> get_subcommands); by then both pops are done and the
    attribute is still there.  The same happens when cfg holds a key no action claims (unk): dump validates
    and check_values raises NSKeyError, which lenient_check does not swallow. *)
-Definition consume (D : decl) (pend : pending) (has : str -> bool) (sel : bool) (unk : bool) (nested : bool) (cv : cvars)
-  : option (out * pending * cvars) :=
+Definition consume (D : decl) (pend : pending) (has : str -> bool) (sel : bool) (unk : bool) (nested : bool)
+  (empty : bool) (cv : cvars) : option (out * pending * cvars) :=
+  (* empty: the configuration dumped has no entry at all (a --cfg={} consumed inside parse_args): nothing is
+     serialised, dump_kwargs stays as it was *)
+  let dk_after pd sv sn sd old := if empty then old else dk_after pd sv sn sd old in
   match pend with
   | PNone => None
   | PBroken fl => Some (OErr EBroken, PBroken fl, cv)            (* pop("key") raises KeyError *)
@@ -433,7 +436,8 @@ Fixpoint scan_root (fx : fixes) (D : decl) (i : nat) (hs : bool) (toks : list to
                           | Some x => x | None => ic0 end in
                 let here := ic_mention hc in
                 match consume D pend (fun x => mem_str x here)
-                              (match here with [] => false | _ => true end) (ic_unknown hc) true cv with
+                              (match here with [] => false | _ => true end) (ic_unknown hc) true
+                              (match items with [] => true | _ => false end) cv with
                 | Some (o, pend', cv') =>
                     {| so_res := SStop o; so_c := c; so_unk := unk; so_pend := pend'; so_chosen := None;
                        so_cv := cv'; so_subargs := None; so_hs := hs |}
@@ -477,13 +481,13 @@ Definition parse_common (D : decl) (pend : pending) (chosen : option str) (c : i
   let sel := selected D chosen c in
   match d_subs D, sel with
   | _ :: _, None => if d_subreq D then (OErr EPre, pend, cv) else
-      match consume D pend (fun _ => false) false (ic_unknown c) false cv with
+      match consume D pend (fun _ => false) false (ic_unknown c) false false cv with
       | Some r => r
       | None => if req_ok D sel c then (OOk (ic_shtab_key c), pend, cv) else (OErr EPost, pend, cv)
       end
   | _, _ =>
       match consume D pend (fun x => match sel with Some y => str_eqb x y | None => false end)
-                    (match sel with Some _ => true | None => false end) (ic_unknown c) false cv with
+                    (match sel with Some _ => true | None => false end) (ic_unknown c) false false cv with
       | Some r => r
       | None => if req_ok D sel c then (OOk (ic_shtab_key c), pend, cv) else (OErr EPost, pend, cv)
       end
